@@ -39,6 +39,30 @@ Params(f) ==
           rr |-> Pick({<<1, 8>>, <<1, 1>>}, {<<4, 1>>}), pr |-> Pick({<<1, 10>>, <<1, 1>>, <<10, 1>>}, {}),
           ur |-> Pick({<<-2, 1>>, <<0, 1>>, <<1, 2>>}, {<<-1, 2>>, <<2, 1>>}), gr |-> Pick({<<7, 5>>, <<5, 3>>}, {<<3, 1>>}),
           xd0 |-> Pick({<<1, 2>>}, {<<-3, 1>>})]
+    [] f = "Sedov" -> [geometry |-> Geo, gamma |-> Pick({<<7, 5>>, <<5, 3>>}, {<<3, 1>>}), rho0 |-> Rho,
+                       omega |-> Pick({<<0, 1>>, <<1, 2>>}, {<<4, 5>>}), eblast |-> Pick({<<17, 20>>, <<2, 1>>}, {})]
+    [] f = "EHEP"  -> [D |-> Pick({<<17, 20>>, <<1, 1>>}, {}), rho_0 |-> Pick({<<8, 5>>, <<1, 1>>}, {}),
+                       up |-> Pick({<<1, 20>>, <<1, 10>>}, {<<0, 1>>}), xtilde |-> Pick({<<1, 1>>, <<4, 5>>}, {})]
+    [] f = "Mader" -> [p_cj |-> Pick({<<3, 10>>, <<2, 1>>}, {}), d_cj |-> Pick({<<4, 5>>, <<1, 1>>}, {}),
+                       gamma |-> Pick({<<3, 1>>, <<5, 2>>}, {}), u_piston |-> Pick({<<0, 1>>, <<1, 10>>}, {})]
+    [] f = "EPpiston" -> [G |-> {<<143, 500>>}, Y |-> Pick({<<13, 5000>>, <<1, 200>>}, {}), rho0 |-> Pick({<<279, 100>>, <<2, 1>>}, {}),
+                          up |-> Pick({<<1, 100>>, <<1, 50>>}, {}), c0 |-> {<<533, 1000>>}, s0 |-> {<<67, 50>>}, gamma |-> {<<2, 1>>},
+                          model |-> {"hypo", "hyperIfin", "hyperFin"}]
+    [] f = "Kenamond1" -> [geometry |-> {2, 3}, D |-> Pick({<<1, 1>>, <<2, 1>>}, {}), t_d |-> Pick({<<0, 1>>, <<1, 2>>}, {}),
+                           x_d |-> {<< <<0, 1>>, <<0, 1>>, <<0, 1>> >>, << <<1, 1>>, <<1, 2>>, <<-3, 4>> >>}]
+    [] f = "Kenamond2" -> [geometry |-> {2, 3}, R |-> Pick({<<3, 1>>, <<5, 2>>}, {}), D1 |-> Pick({<<2, 1>>, <<5, 2>>}, {}), D2 |-> Pick({<<1, 1>>, <<3, 2>>}, {})]
+    [] f = "Kenamond3" -> [geometry |-> {2, 3}, R |-> Pick({<<3, 1>>, <<5, 2>>}, {}), D |-> Pick({<<2, 1>>, <<1, 1>>}, {}), t_d |-> Pick({<<0, 1>>, <<1, 2>>}, {}),
+                           x_d |-> {<< <<0, 1>>, <<5, 1>>, <<0, 1>> >>, << <<1, 1>>, <<6, 1>>, <<-2, 1>> >>}]
+    [] f = "DSDcyl" -> [r_1 |-> Pick({<<1, 1>>, <<4, 5>>}, {}), r_2 |-> Pick({<<2, 1>>, <<5, 2>>}, {}), D_CJ_1 |-> Pick({<<1, 2>>, <<1, 1>>}, {}),
+                        D_CJ_2 |-> Pick({<<1, 1>>, <<3, 2>>}, {}), alpha_1 |-> Pick({<<1, 10>>, <<0, 1>>}, {}), alpha_2 |-> Pick({<<1, 10>>, <<1, 5>>}, {}),
+                        t_d |-> Pick({<<0, 1>>, <<3, 10>>}, {})]
+    [] f = "Blake" -> [ref_density |-> Pick({<<3, 1>>, <<5, 2>>}, {}), cavity_radius |-> Pick({<<1, 10>>, <<2, 25>>}, {}),
+                       pressure_scale |-> Pick({<<1, 1000>>, <<1, 500>>}, {}), lame_mod |-> Pick({<<25, 1>>, <<30, 1>>}, {}),
+                       shear_mod |-> Pick({<<25, 1>>, <<20, 1>>}, {})]
+    [] f = "Rod1D" -> [kappa |-> Pick({<<1, 1>>, <<1, 2>>}, {}), L |-> Pick({<<2, 1>>, <<3, 1>>}, {}), TL |-> Pick({<<3, 1>>, <<1, 1>>}, {}),
+                       TR |-> Pick({<<3, 1>>, <<4, 1>>}, {}), bc |-> {"BC1", "BC2", "BC3", "BC4"}]
+    [] f = "Hutchens1" -> [k |-> Pick({<<1, 1>>, <<2, 1>>}, {}), cp |-> Pick({<<1, 1>>, <<1, 2>>}, {}), rho |-> Pick({<<1, 1>>, <<8, 1>>}, {}),
+                           Tb |-> Pick({<<5, 1>>, <<3, 1>>}, {}), T0 |-> Pick({<<1, 1>>, <<2, 1>>}, {}), b |-> Pick({<<1, 1>>, <<3, 2>>}, {})]
     [] f = "Cog1"  -> [geometry |-> Geo, gamma |-> Gam, rho0 |-> Rho, temp0 |-> Temp, b |-> Pick({<<6, 5>>, <<-1, 2>>}, {<<0, 1>>}), Gamma |-> BigG]
     [] f = "Cog2"  -> [geometry |-> Geo, gamma |-> Gam, rho0 |-> Rho, b |-> Pick({<<6, 5>>, <<-1, 2>>}, {<<3, 1>>}), Gamma |-> BigG]
     [] f = "Cog3"  -> [geometry |-> Geo, rho0 |-> Rho, b |-> Pick({<<6, 5>>, <<-1, 2>>}, {<<3, 1>>}), v |-> Pick({<<1, 2>>, <<-3, 2>>}, {<<-2, 1>>}), Gamma |-> BigG]
@@ -67,16 +91,27 @@ TimesOf(f, p) ==
     [] f = "Cog7" -> {<<p.tau[1] * x[1], p.tau[2] * x[2]>> : x \in Pick({<<1, 4>>, <<1, 2>>}, {<<4, 5>>})}              \* 0 < t < tau (t <= 0 returns NaN as documented)
     [] f = "Cog20" -> Pick({<<3, 10>>, <<17, 10>>}, {<<1, 1>>})
     [] f \in RiemannFams -> Pick({<<1, 4>>}, {<<2, 1>>})
+    [] f = "Sedov" -> Pick({<<1, 2>>, <<1, 1>>}, {<<17, 10>>})
+    [] f = "EHEP"  -> Pick({<<1, 2>>, <<2, 1>>, <<5, 1>>}, {<<8, 1>>})
+    [] f = "Mader" -> Pick({<<3, 1>>, <<5, 1>>}, {})
+    [] f = "EPpiston" -> Pick({<<1, 50>>, <<1, 20>>}, {})
+    [] f \in {"Kenamond1", "Kenamond2", "Kenamond3", "DSDcyl"} -> {<<1, 1>>}      \* burn-time fields do not depend on t
+    [] f = "Blake" -> Pick({<<1, 20>>, <<1, 10>>}, {})
+    [] f \in {"Rod1D", "Hutchens1"} -> Pick({<<1, 10>>, <<1, 2>>}, {<<1, 100>>})
     [] OTHER -> Times
 
 (* configurations whose closed form is defined (no division by zero, no  *)
 (* fractional power of a negative number): the mathematics, not a        *)
 (* documented restriction of the solver                                  *)
-Geom(f, p) == IF "geometry" \in DOMAIN p THEN p.geometry ELSE IF f \in RiemannFams THEN 1 ELSE 3
+Geom(f, p) == IF "geometry" \in DOMAIN p THEN p.geometry
+              ELSE IF f \in RiemannFams \cup {"EHEP", "Mader", "EPpiston", "Rod1D"} THEN 1 ELSE IF f = "DSDcyl" THEN 2 ELSE 3
 Defined(f, p, t) ==
   LET k == Geom(f, p) - 1 IN
   CASE f \in RiemannFams -> /\ ~(QEq(p.pl, p.pr) /\ QEq(p.ul, p.ur))                   \* a pure contact has no acoustic waves
                             /\ ~(QEq(p.pl, p.pr) /\ QEq(p.rl, p.rr) /\ QEq(p.gl, p.gr))  \* mirror-symmetric data: no contact
+    [] f = "Sedov" -> QLt(p.omega, <<Geom(f, p), 1>>)
+    [] f = "DSDcyl" -> QLt(p.r_1, p.r_2) /\ QLt(QDiv(p.alpha_1, p.D_CJ_1), p.r_1) /\ QLt(QDiv(p.alpha_2, p.D_CJ_2), p.r_2)
+    [] f = "Kenamond2" -> QLe(p.D2, p.D1)
     [] f = "Cog2"  -> ~QEq(p.b, <<-2, 1>>)
     [] f = "Cog3"  -> ~QEq(p.v, <<k - 1, 1>>) /\ ~QEq(p.v, <<0, 1>>)
     [] f = "Cog6"  -> ~QEq(p.b, <<-2, 1>>)
